@@ -1,4 +1,5 @@
 import Chess.Lemmas.Reach
+import Chess.Lemmas.SearchF
 
 /-!
 # C06 — the move the engine announces is always legal
@@ -45,9 +46,33 @@ theorem chess_after_any_history (hZ : ZobristOk) (reqs : List (Req Game)) (hreqs
     (∀ m, out.found = some m → m ∈ (r.g.getMoves true).1) ∧ (out.found = none ↔ (r.g.getMoves true).1 = []) :=
   after_any_history hZ chess_closed reqs (fun q hq => reach_wf (hreqs q hq)) r (reach_wf hr)
 
+
+/-! ### The faithful model (`driverF`: the table keeps what an ABORTED iteration stored, as the
+Rust table does; this is the model the correspondence check runs) -/
+open Chess.Search.F in
+/-- **C06.4** After any history of searches each of which may have been stopped at any poll, the
+next search — stopped or not — reports a legal move, none iff there is none, and hands on a table
+that still satisfies the invariant. -/
+theorem faithful_after_any_history {o : Ops G M} {P : G → Prop} (hH : HashOk o P) (hC : Closed o P)
+    (reqs : List (Req G)) (hreqs : ∀ r ∈ reqs, P r.g) (r : Req G) (hP : P r.g) :
+    let out := driverF o r.runs r.g (tableAfterF o {} reqs) r.off r.md
+    (∀ m, out.found = some m → m ∈ o.checked r.g) ∧ (out.found = none ↔ o.checked r.g = []) ∧
+      (∀ info ∈ out.infos, LegalLine o r.g info.pv) ∧ TTInv o P out.st.tt :=
+  sessionF_sound hH hC reqs hreqs r hP
+
+open Chess.Search.F in
+theorem chess_faithful_after_any_history (hZ : ZobristOk) (reqs : List (Req Game))
+    (hreqs : ∀ r ∈ reqs, Reach r.g) (r : Req Game) (hr : Reach r.g) :
+    let out := driverF Uci.chessOps r.runs r.g (tableAfterF Uci.chessOps {} reqs) r.off r.md
+    (∀ m, out.found = some m → m ∈ (r.g.getMoves true).1) ∧ (out.found = none ↔ (r.g.getMoves true).1 = []) :=
+  let h := sessionF_sound hZ chess_closed reqs (fun q hq => reach_wf (hreqs q hq)) r (reach_wf hr)
+  ⟨h.1, h.2.1⟩
+
 end Chess.Props.C06
 
 #print axioms Chess.Props.C06.announced_move_is_legal
 #print axioms Chess.Props.C06.no_move_iff_none_exists
 #print axioms Chess.Props.C06.after_any_history
 #print axioms Chess.Props.C06.chess_after_any_history
+#print axioms Chess.Props.C06.faithful_after_any_history
+#print axioms Chess.Props.C06.chess_faithful_after_any_history
